@@ -63,6 +63,10 @@ class Report:
         """Instances discovered must not fall below the hand-confirmed floor: a vanished anchor is never a pass."""
         self.floors.append({"rule": rule, "what": what, "found": found, "floor": floor})
         if found < floor:
+            if any((not i.ok) and i.rule == rule for i in self.items):
+                # the shortfall is already explained by a reported violation of this very rule
+                self.notes.append(f"{rule}: {found} {what} (< floor {floor}); a violation of the rule is reported")
+                return
             raise AnalysisError(f"{rule}: only {found} {what} discovered, floor is {floor} (anchor vanished or matcher rotted)")
 
     def note(self, msg: str) -> None:
@@ -106,8 +110,12 @@ def finish(rep: Report, seed: int = 0) -> int:
         else:
             new_fail.append(it)
 
+    by_id: dict[str, list] = {}
     for it, k in known_hits:
-        print(f"KNOWN-FINDING: property={rep.prop} {k['id']} {it.rule} {it.construct} -- {k['what']}")
+        by_id.setdefault(k["id"], []).append((it, k))
+    for fid, hits in by_id.items():
+        rules = sorted({it.rule for it, _ in hits})
+        print(f"KNOWN-FINDING: property={rep.prop} {fid} ({', '.join(rules)}; {len(hits)} listed construct(s)) {hits[0][1]['what']}")
 
     n_ok = sum(1 for i in rep.items if i.ok)
     n_all = len(rep.items)
